@@ -537,6 +537,271 @@ def impl_e2e_fields(a):
     are read back from the module file that was written."""
     return _guard(lambda: generated_members(adapt_pipeline("names.e2e_fields", a)))
 
+# ----------------------------------------------------------------- DetectCircularReferences
+
+
+def _walk_types(node):
+    """the AttrType specs of a class spec in `Class.types()` order: extensions, attr types, choice
+    types, then the inner classes"""
+    for t in node["exts"]:
+        yield t
+    for at in node["attrs"]:
+        yield from at["types"]
+        for ch in at["choices"]:
+            yield from ch
+    for inner in node["inner"]:
+        yield from _walk_types(inner)
+
+
+def _walk_nodes(nodes):
+    for n in nodes:
+        yield n
+        yield from _walk_nodes(n["inner"])
+
+
+def circ_flatten(a):
+    """What the handler is documented to look at, as flat tables for the model: every AttrType
+    object once (shared by the cached lists), the cached reference_types lists, and per processed
+    class its own attr / choice types in processing order."""
+    edge_id = {}
+    edges = []
+    for root in a["classes"]:
+        for t in _walk_types(root):
+            edge_id[id(t)] = len(edges)
+            edges.append({"tgt": t["ref"], "fwd": t["fwd"], "nat": t["nat"], "circ": t["circ"]})
+    ref_types = []
+    own = {}
+    for n in _walk_nodes(a["classes"]):
+        ref_types.append({"ref": n["id"], "ids": [edge_id[id(t)] for t in _walk_types(n) if t["ref"]]})
+        ids = []
+        for at in n["attrs"]:
+            ids += [edge_id[id(t)] for t in at["types"]]
+            for ch in at["choices"]:
+                ids += [edge_id[id(t)] for t in ch]
+        own[n["id"]] = ids
+    return {"edges": edges, "ref_types": ref_types, "proc": [{"ref": k, "own": own[k]} for k in a.get("order", [])]}
+
+
+def with_flat(a):
+    """the case as the real objects are built from it (classes, order) plus the flat tables the
+    Lean model reads (edges, ref_types, proc)"""
+    return {**a, **circ_flatten(a)}
+
+
+def circ_build(a):
+    """real Class / Attr / AttrType / Extension objects for the class forest of the case"""
+    from xsdata.codegen.models import AttrType, Extension, Restrictions
+
+    objs = {}
+    types = []  # (spec, AttrType) in edge order
+
+    def mk_type(t):
+        tp = AttrType(qname=f"c{t['ref']}" if t["ref"] else "{http://www.w3.org/2001/XMLSchema}string",
+                      native=t["nat"], forward=t["fwd"], circular=t["circ"])
+        types.append((t, tp))
+        return tp
+
+    def mk_class(n, parent=None):
+        c = Class(qname=f"c{n['id']}", tag=Tag.COMPLEX_TYPE, location="l")
+        c.parent = parent
+        objs[n["id"]] = c
+        c.extensions = [Extension(tag=Tag.EXTENSION, type=mk_type(t), restrictions=Restrictions()) for t in n["exts"]]
+        for k, at in enumerate(n["attrs"]):
+            attr = Attr(tag=Tag.ELEMENT, name=f"a{k}", types=[mk_type(t) for t in at["types"]])
+            attr.choices = [Attr(tag=Tag.ELEMENT, name=f"a{k}_{j}", types=[mk_type(t) for t in ch]) for j, ch in enumerate(at["choices"])]
+            c.attrs.append(attr)
+        c.inner = [mk_class(i, c) for i in n["inner"]]
+        return c
+
+    roots = [mk_class(n) for n in a["classes"]]
+    for t, tp in types:
+        # a reference to a class that does not exist keeps a number no class has
+        tp.reference = id(objs[t["ref"]]) if t["ref"] in objs else (0 if not t["ref"] else t["ref"])
+    return roots, objs, types
+
+
+def run_detect_circular(a):
+    from xsdata.codegen.handlers import DetectCircularReferences
+
+    roots, objs, types = circ_build(a)
+    container = ClassContainer(GeneratorConfig())
+    container.extend(roots)
+    h = DetectCircularReferences(container)
+    for k in a["order"]:
+        h.process(objs[k])
+    return [tp.circular for _, tp in types], objs, types
+
+
+def impl_detect_circular(a):
+    try:
+        return ok(run_detect_circular(a)[0])
+    except KeyError:
+        return err("KeyError")
+    except Exception as e:  # noqa: BLE001
+        return err("LEAK:" + type(e).__name__)
+
+
+def impl_is_circular(a):
+    from xsdata.codegen.handlers import DetectCircularReferences
+
+    try:
+        roots, objs, types = circ_build(a)
+        container = ClassContainer(GeneratorConfig())
+        container.extend(roots)
+        h = DetectCircularReferences(container)
+        h.build_reference_types()
+        ref = lambda k: id(objs[k]) if k in objs else k  # noqa: E731
+        return ok(h.is_circular(ref(a["start"]), ref(a["stop"])))
+    except KeyError:
+        return err("KeyError")
+    except Exception as e:  # noqa: BLE001
+        return err("LEAK:" + type(e).__name__)
+
+
+def _rand_forest(rng, n_classes, dangling=False, preflag=False):
+    ids = list(range(1, n_classes + 1))
+    nodes = {k: {"id": k, "exts": [], "attrs": [], "inner": []} for k in ids}
+    roots = []
+    parent = {}
+    for k in ids:
+        if k > 1 and rng.random() < 0.3:
+            p = rng.choice([x for x in ids if x < k])
+            nodes[p]["inner"].append(nodes[k])
+            parent[k] = p
+        else:
+            roots.append(nodes[k])
+    style = rng.choice(["sparse", "dense", "chain", "ring"])
+
+    def mk(ref, owner):
+        nat = ref == 0 or rng.random() < 0.03
+        fwd = ref != 0 and parent.get(ref) == owner
+        return {"ref": ref, "fwd": bool(fwd), "nat": bool(nat), "circ": bool(preflag and rng.random() < 0.15)}
+
+    def pick(owner):
+        r = rng.random()
+        if r < 0.15:
+            return 0
+        if dangling and r < 0.2:
+            return 90 + rng.randint(0, 3)
+        if style == "chain":
+            return min(n_classes, owner + 1)
+        if style == "ring":
+            return owner % n_classes + 1
+        return rng.choice(ids)
+
+    for k in ids:
+        n = nodes[k]
+        n_attrs = rng.randint(0, 1 if style == "sparse" else 3)
+        for _ in range(n_attrs):
+            at = {"types": [mk(pick(k), k) for _ in range(rng.randint(1, 2))], "choices": []}
+            if rng.random() < 0.2:
+                at["choices"] = [[mk(pick(k), k)] for _ in range(rng.randint(1, 2))]
+            n["attrs"].append(at)
+        if rng.random() < 0.25:
+            n["exts"].append(mk(pick(k), k))
+        for i in n["inner"]:
+            # the parent refers to its inner class with a forward type
+            n["attrs"].append({"types": [{"ref": i["id"], "fwd": True, "nat": False, "circ": False}], "choices": []})
+    return roots, ids
+
+
+def gen_detect_circular(rng, tier):
+    def t(ref, fwd=False, nat=False, circ=False):
+        return {"ref": ref, "fwd": fwd, "nat": nat, "circ": circ}
+
+    def c(k, types=(), exts=(), inner=()):
+        return {"id": k, "exts": list(exts), "attrs": [{"types": [x], "choices": []} for x in types], "inner": list(inner)}
+
+    hand = [
+        ([c(1, [t(1)])], [1]),                                   # self reference
+        ([c(1, [t(2)]), c(2, [t(1)])], [1, 2]),                  # 2-cycle: only the first processed is flagged
+        ([c(1, [t(2)]), c(2, [t(1)])], [2, 1]),
+        ([c(1, [t(2)]), c(2, [t(3)]), c(3, [t(1)])], [1, 2, 3]),
+        ([c(1, [t(2)]), c(2, exts=[t(1)])], [1, 2]),             # cycle closed by an extension
+        ([c(1, [t(2)]), c(2, exts=[t(1)])], [2, 1]),
+        ([c(1, [t(3, fwd=True)], inner=[c(3, [t(2)])]), c(2, [t(1)])], [1, 3, 2]),  # through an inner class
+        ([c(1, [t(3, fwd=True)], inner=[c(3, [t(2)])]), c(2, [t(1)])], [2, 1, 3]),
+        ([c(1, [t(2), t(0, nat=True)]), c(2, [])], [1, 2]),
+        ([c(1, [t(9)])], [1]),                                   # dangling reference: KeyError
+        ([c(1, [t(2, circ=True)]), c(2, [t(1)])], [1, 2]),       # already flagged
+        ([], []),
+    ]
+    for classes, order in hand:
+        yield with_flat({"classes": classes, "order": order})
+    for _ in range(400 if tier == "quick" else 8000):
+        n = rng.choice([1, 2, 3, 3, 4, 5, 6, 8])
+        roots, ids = _rand_forest(rng, n, dangling=rng.random() < 0.08, preflag=rng.random() < 0.15)
+        order = ids[:]
+        r = rng.random()
+        if r < 0.5:
+            rng.shuffle(order)
+        elif r < 0.6:
+            order = order[: rng.randint(0, len(order))]
+        yield with_flat({"classes": roots, "order": order})
+
+
+def gen_is_circular(rng, tier):
+    for _ in range(300 if tier == "quick" else 6000):
+        n = rng.choice([1, 2, 3, 4, 5, 6])
+        roots, ids = _rand_forest(rng, n, dangling=rng.random() < 0.1, preflag=rng.random() < 0.3)
+        yield with_flat({"classes": roots, "start": rng.choice(ids + [95]), "stop": rng.choice(ids)})
+
+
+def classify_circular(a, out):
+    if "err" in out:
+        return "err:" + out["err"]
+    n = sum(1 for _ in _walk_nodes(a["classes"]))
+    inner = sum(1 for x in _walk_nodes(a["classes"]) if x["inner"])
+    flagged = sum(out["ok"]) if isinstance(out["ok"], list) else int(out["ok"])
+    return f"classes={min(n, 5)}{'+' if n > 5 else ''} nested={'y' if inner else 'n'} flagged={min(flagged, 3)}{'+' if flagged > 3 else ''}"
+
+
+def oracle_circular(a):
+    """After DetectCircularReferences no remaining (unflagged, non-forward, non-native) attr or choice
+    type of a processed class leads back to that class through unflagged types; and a type is only
+    flagged when it lies on a cycle of the original graph."""
+    try:
+        flags, objs, types = run_detect_circular(a)
+    except KeyError:
+        known = {n["id"] for n in _walk_nodes(a["classes"])}
+        if any(t["ref"] and t["ref"] not in known for r in a["classes"] for t in _walk_types(r)):
+            return None  # a dangling reference is reported by ValidateReferences, not here
+        return "DetectCircularReferences raised KeyError without a dangling reference"
+    except Exception as e:  # noqa: BLE001
+        return f"DetectCircularReferences raised {type(e).__name__}: {e}"
+    nodes = {n["id"]: n for n in _walk_nodes(a["classes"])}
+    flag_of = {id(t): f for (t, _), f in zip(types, flags)}
+
+    def succ(k, use_final):
+        out = set()
+        for t in _walk_types(nodes[k]):
+            if t["ref"] and t["ref"] in nodes and not (flag_of[id(t)] if use_final else t["circ"]):
+                out.add(t["ref"])
+        return out
+
+    def reach(start, use_final):
+        seen, todo = set(), [start]
+        while todo:
+            x = todo.pop()
+            if x in seen or x not in nodes:
+                continue
+            seen.add(x)
+            todo.extend(succ(x, use_final))
+        return seen
+
+    for k in a["order"]:
+        n = nodes[k]
+        own = [t for at in n["attrs"] for t in at["types"] + [x for ch in at["choices"] for x in ch]]
+        for t in own:
+            if t["fwd"] or t["nat"] or not t["ref"] or t["ref"] not in nodes:
+                continue
+            if not flag_of[id(t)] and k in reach(t["ref"], True):
+                return f"class c{k} keeps a plain reference to c{t['ref']} although c{t['ref']} leads back to c{k}: the module would import itself / use a class before its definition"
+            if flag_of[id(t)] and not t["circ"] and k not in reach(t["ref"], False):
+                return f"class c{k}: the reference to c{t['ref']} is flagged circular although c{t['ref']} never leads back to c{k}"
+    return None
+
+
 
 def classify_safe(a, out):
     if "err" in out:
@@ -583,6 +848,11 @@ CORRS = [
     Corr("names.e2e_fields", gen_e2e_fields, impl_e2e_fields, nontrivial=lambda a, o: len(a["attrs"]) > 1,
          describe="whole real pipeline on one complexType / enumeration vs model(rename_duplicate_attributes ∘ field/constant_name)",
          classify=lambda a, o: ("enum" if a["attrs"][0]["tag"] == "Enumeration" else "complexType") + (":err" if "err" in o else "")),
+    Corr("names.detect_circular", gen_detect_circular, impl_detect_circular,
+         describe="DetectCircularReferences.process over a class forest (shared AttrType objects, cached reference_types, any order)",
+         classify=classify_circular, nontrivial=lambda a, o: len(a["order"]) > 1),
+    Corr("names.is_circular", gen_is_circular, impl_is_circular,
+         describe="DetectCircularReferences.is_circular(start, stop)", classify=classify_circular),
     Corr("names.rename_classes", gen_rename_classes, impl_rename_classes, nontrivial=lambda a, o: len(a["classes"]) > 1,
          describe="RenameDuplicateClasses.run (renames only)",
          classify=lambda a, o: "renamed" if o.get("ok") != [c["qname"] for c in a["classes"]] else "unchanged"),
